@@ -388,6 +388,53 @@ theorem estimate_optimal [AddCommGroup β] [LinearOrder β] [IsOrderedAddMonoid 
   · intro σ hσ
     exact (decoded_optimal_add t hadd N hpos hbig r hd σ (fun k hk => by rw [hn k hk]; exact hσ k hk)).1
 
+/-- **T6b `estimate_optimal_feasible`** (end to end WITHOUT the hypothesis on running costs; `+` of an ordered additive
+commutative monoid with a negation — e.g. the extended reals, where the logarithm `⊥` of a zero probability has the cost
+`⊤`). The cost tables of this call are non-negative (`⊤` = impossible allowed) and some candidate sequence costs less
+than the sentinel. After the call the states read from `hmm_inference` are candidates of their epochs, `hmm_cost` holds at
+EVERY epoch the cost of the decoded prefix, and the decoded sequence costs no more than ANY candidate sequence. -/
+theorem estimate_optimal_feasible [AddCommMonoid β] [Neg β] [LinearOrder β] [IsOrderedAddMonoid β] (nm : Num β) (h : Obj β)
+    (tr : Trk β) (obs : List String) (log : Bool) (mode N : Nat) (hwf : tr.WF) (hsize : tr.size = N + 1)
+    (OBS : List (List (ObsItem β)))
+    (hobs : (List.range tr.size).mapM (fun k => getObsK nm tr obs k mode) = .ok OBS)
+    (hS : ∀ k, k ≤ N → h.S tr k ≠ [])
+    (hp : ∀ k l, 0 ≤ (tablesOf nm { h with log := h.log || log } tr ((List.range tr.size).map (h.S tr)) OBS).obs k l)
+    (hq : ∀ k m l, 0 ≤ (tablesOf nm { h with log := h.log || log } tr ((List.range tr.size).map (h.S tr)) OBS).trans k m l)
+    (σ₀ : Nat → Nat) (hσ₀ : ∀ k, k ≤ N → σ₀ k < (h.S tr k).length)
+    (hc₀ : cost (tablesOf nm { h with log := h.log || log } tr ((List.range tr.size).map (h.S tr)) OBS) σ₀ N < nm.big) :
+    ∃ (i : Nat → Nat) (tr' : Trk β),
+      estimate nm h tr obs log mode = ({ h with log := h.log || log }, tr', none) ∧
+      (∀ k, k ≤ N → i k < (h.S tr k).length ∧ tr'.get? "hmm_inference" k = some (.st ((h.S tr k).getD (i k) 0))) ∧
+      (∀ k, k ≤ N → tr'.get? "hmm_cost" k = some (.num
+        (cost (tablesOf nm { h with log := h.log || log } tr ((List.range tr.size).map (h.S tr)) OBS) i k))) ∧
+      ∀ σ : Nat → Nat, (∀ k, k ≤ N → σ k < (h.S tr k).length) →
+        cost (tablesOf nm { h with log := h.log || log } tr ((List.range tr.size).map (h.S tr)) OBS) i N
+          ≤ cost (tablesOf nm { h with log := h.log || log } tr ((List.range tr.size).map (h.S tr)) OBS) σ N := by
+  obtain ⟨r, tr', hd, he, _, _, _, hres, _⟩ := estimate_ok nm h tr obs log mode N hwf hsize OBS hobs hS
+  have hb : (tablesOf nm { h with log := h.log || log } tr ((List.range tr.size).map (h.S tr)) OBS).big = nm.big := rfl
+  rw [← hb] at hc₀
+  generalize ht : tablesOf nm { h with log := h.log || log } tr ((List.range tr.size).map (h.S tr)) OBS = t at *
+  have hn : ∀ k, k ≤ N → t.n k = (h.S tr k).length := by
+    intro k hk
+    subst ht
+    show (((List.range tr.size).map (h.S tr)).getD k []).length = _
+    rw [states_getD _ _ _ (by omega)]
+  have hpos : ∀ k, k ≤ N → 0 < t.n k := by
+    intro k hk
+    rw [hn k hk]
+    exact List.length_pos_iff.mpr (hS k hk)
+  have hadd : t.add = (· + ·) := by subst ht; rfl
+  obtain ⟨hv, hpre, hopt, _⟩ := decoded_optimal_feasible_add t hadd N hpos (fun k l _ _ => hp k l)
+    (fun k m l _ _ _ => hq k m l) r hd σ₀ (fun k hk => by rw [hn k hk]; exact hσ₀ k hk) hc₀
+  refine ⟨seqOf r, tr', he, fun k hk => ⟨by rw [← hn k hk]; exact hv k hk, (hres k hk).1⟩, fun k hk => ?_, ?_⟩
+  · obtain ⟨v, hv1, hv2⟩ := (hres k hk).2
+    have hc := hpre k hk
+    rw [hv1] at hc
+    injection hc with hc
+    rw [hv2, hc]
+  · intro σ hσ
+    exact hopt σ (fun k hk => by rw [hn k hk]; exact hσ k hk)
+
 /-- **T7 `estimate_twice`** (histories). Two calls one after the other on the same track — other object, other
 model, other observation features, other flag, other mode: after the second call the two result features hold the
 decoding of the SECOND call (its tables are compiled from the track as the first call left it, so observations
